@@ -54,6 +54,9 @@ func keyOfStruct(ni string, data ygot.ValidatedGoStruct) (Key, proto.Message, er
 // resolvedHook checks the resolved-entry notification contract (C16, second
 // sentence) and then scribbles over its copy to test that it is private.
 func (e *env) resolvedHook(ribs map[string]*aft.RIB, ot constants.OpType, ni string, a constants.AFT, key any, _ ...rib.ResolvedDetails) {
+	if e.sc.Cfg.Policy == "corelease" {
+		return // race runs: hook goroutines really run in parallel and the harness keeps no shared state there
+	}
 	e.resolvedCalls++
 	r := ribs[ni]
 	present := false
